@@ -66,6 +66,15 @@ def cases(tier, seed):
         for ba in ((), (2,), (1,), (2, 3)):
             for act in unary_actions():
                 out.append({"kind": "un", "A": a, "ba": list(ba), "act": act})
+    # depth 2 on concatenations (both tiers): batch-reshaping rewrites of an operator concatenated along a batch or matrix dimension
+    cat_parts = ["Dense", "Diag", "Toeplitz", "Kron", "Root", "DensePSD"]
+    cat_acts = [["unsqueeze0"], ["unsqueeze1"], ["squeeze0"], ["repeat2"], ["repeat21"], ["expand2"], ["expand23"], ["permute"], ["transpose01"], ["mT"],
+                ["sum0"], ["mul", "pyfloat"], ["mul", "batchconst"], ["add_jitter"], ["to_dense"]]
+    for a, b in itertools.product(cat_parts, cat_parts):
+        for op in ("cat0", "cat-2", "cat-1"):
+            for ba in ((2,), (2, 3)) if op == "cat0" else ((), (2,)):
+                for act in cat_acts:
+                    out.append({"kind": "bin", "op": op, "A": a, "B": b, "ba": list(ba), "bb": list(ba), "then": act})
     if tier == "thorough":
         # depth 2: every unary rewrite on top of binary results (equal batch pairs; partners restricted to a
         # representative set so that every (result type, unary action) pair occurs)
